@@ -399,9 +399,11 @@ def fs_enum_cases(rng, n):
                 o = rng.randrange(4)
                 w = where()
                 c.append('dopen %d %s %s %d' % (o, H(w), H(rng.choice(PATTERNS)), rng.randrange(2)))
+                w2 = ''
                 if rng.random() < 0.4:
-                    c.append('dopen %d %s %s 0' % (o, H(where()), H('')))
-                if rng.random() < 0.4 and not w.startswith('../out'):
+                    w2 = where()
+                    c.append('dopen %d %s %s 0' % (o, H(w2), H('')))
+                if rng.random() < 0.4 and not w.startswith('../out') and not w2.startswith('../out'):
                     # what a link leads to changes between open and read (the directory that is being
                     # enumerated is left alone: what readdir makes of a change is the kernel's business)
                     c.append(rng.choice(['mkd ' + H('../out/t'), 'mkf %s %s' % (H('../out/t'), H(b'x'))]))
@@ -1025,7 +1027,17 @@ class C19(Check):
                   'path text denotes, compared). For B the implementation is judged twice: by an executable reading of the property '
                   'text that does not use the model (checks/C19.py fs_text_judge: failure leaves the tree exactly as it was; copy/rename '
                   'success = exactly the bytes / the node at the place the kernel resolves; handles = byte sequence with cursor; '
-                  'create true iff exists, only directories added; unlink removes exactly the named directory), then against the model.')
+                  'create true iff exists, only directories added; unlink removes exactly the named directory), then against the model. '
+                  'Round 3 (the functions the coverage measurement found unentered): flush is an operation of the handle histories (no byte, '
+                  'no cursor moves); static readAll(path) gives true and exactly the bytes iff the text leads to a regular file - a directory '
+                  '(repair fixes/C19/10), a missing name, a dangling link report failure - and never changes tree, current directory or handles; '
+                  'File::exists = lstat; getAbsolutePath is absolute, keeps absolute arguments, lexically denotes the argument resolved from the '
+                  'current directory (reference of part A) and leads the kernel walk where the argument leads; Directory::change; the enumeration '
+                  'open/read/close yields exactly the reference listing (entries the pattern selects, each once, directory order, right type incl. '
+                  'links to directories, "." and ".." left out; wildcard matcher proved equal to the reference relation); purge = the exact cut plus '
+                  'every ancestor below the current directory that this leaves empty, nothing outside the first name of the path touched; recursive '
+                  'unlink with any one failing rmdir/opendir/readdir/unlink call (fault oracle; exercised through interposed calls) says true only '
+                  'with the exact cut, false only when a call failed, and in all cases only removes inside the given directory.')
     level_note = ('Partial for B: the kernel (path resolution with symbolic links, open/read/write/lseek/ftruncate/sendfile/rename/unlink/'
                   'mkdir/rmdir/symlink/stat/lstat/readdir; FsModel part K) is a trusted model, validated only by correspondence on one '
                   'file system (the sandbox reports ext2/ext3; uid 0, so no permission failures; no hard links); descriptors name files by '
@@ -1051,8 +1063,21 @@ class C19(Check):
                   'stream (needs uid 0, skipped otherwise), path texts ending in a separator only for Directory::create/unlink/exists '
                   '(the kernel model ignores a trailing separator, which is wrong for files and links under open/unlink/rename/copy: not '
                   'generated), descriptor 0 is never free in the harness (File stores the descriptor with 0 meaning closed: an open that '
-                  'got descriptor 0 would report isOpen() false and leak). Trusted: Coq kernel, extraction + OCaml driver, harness, '
-                  'generators, the Python judge.')
+                  'got descriptor 0 would report isOpen() false and leak). Round 3: not modelled because outside the property text and '
+                  'never entered: Directory::getTempDirectory, getHomeDirectory, File::time, File::isExecutable. fnmatch is modelled for patterns '
+                  'of literal bytes, * and ? only (no brackets, no backslash; patterns without NUL); readdir order is the tree order in the model - '
+                  'listings are compared sorted, and under an armed fault the harness hands the entries out by name (a legal kernel) while the '
+                  'generator creates them in that order; a directory that changes between open() and read() is outside the model (only what a '
+                  'link leads to is changed there). Choices of the code the Spec follows: with dirsOnly a symbolic link to a directory is not '
+                  'reported (d_type decides before stat; the `else if(dirsOnly) continue` after stat is dead), without it it is reported as a '
+                  'directory; read() leaves the object open at the end, so open() is refused until close(); purge answers true as soon as the '
+                  'directory is gone, whatever becomes of the parents (documented); its climb is textual: a trailing separator stops it at once '
+                  '(rmdir of the name just removed fails), and a backslash counts as a separator, so purge("x\\y") removes the directory `x\\y` and '
+                  'then tries the unrelated name `x` (as Directory::create does for parents); getAbsolutePath takes `c:/...` and a leading backslash '
+                  'for absolute on POSIX too, and when getcwd fails (current directory removed) it answers "/" + path: not generated. Fault oracle: one '
+                  'failing call (EIO) per operation; the purge theorem is for the fault-free run, purge under faults by judge and correspondence; a '
+                  'current directory that is removed or renamed while current is outside model and generators; readAll on a File that was never '
+                  'opened looks at descriptor 0. Trusted: Coq kernel, extraction + OCaml driver, harness, generators, the Python judge.')
     technique = 'machine-checked proof (Coq) + model/implementation correspondence + executable property-text judge'
     rule = ('A: every string of length <= 5 (thorough 7) over {/ \\ . a b} through all scanners, simplifyPath twice and '
             'isAbsolutePath; every pair of strings of length <= 3 (4) through getRelativePath; explicit extensions; random longer '
@@ -1065,8 +1090,13 @@ class C19(Check):
             'sendfile outcome (short, empty, failing; destination new, existing, dangling link, outside); contents of 64 KiB..200 KB '
             '(1 MiB) through readAll/read/write/append/copy/rename; absolute path texts and link targets, the root and its children, '
             'inside a chroot; exhaustively every path of <= 2 (3) components over {a b l [f] . ..} for create/unlink and every pair '
-            'of short paths for rename/copy with both failIfExists values. Non-trivial = a library operation ran and its answer was '
-            'observed; distinct = distinct op text.')
+            'of short paths for rename/copy with both failIfExists values. Round 3: enumeration with 20 patterns x dirsOnly on trees with '
+            'hidden names, links to directories / files / nothing / "." / "..", through ".", "..", links, files, missing names, and the object '
+            'protocol (open twice, read past the end, open at the end, close, read closed, reuse, link target changed between open and read); '
+            'readAll(path) / exists / flush / getAbsolutePath / cwd / change on random trees (flush on directory handles, readAll of directories - '
+            'the witness of fix 10); purge on chains with siblings, every empty chain of depth <= 4 from every level, absolute chains in the chroot; '
+            'unlink / purge with one failing call at every position on 4 fixed trees and at random positions on random chains. Non-trivial = a '
+            'library operation ran and its answer was observed; distinct = distinct op text.')
     assumptions = ['kernel file-system semantics as modelled in coq/Path/FsModel.v part K (validated by correspondence on the sandbox file system, reported as ext2/ext3, uid 0)',
                    'no file is renamed or unlinked while a handle on it is open; no hard links; no permission failures',
                    'single read()/write() calls complete; ftruncate/fstat/lseek/close do not fail (sendfile may be short or fail: modelled)',
@@ -1074,7 +1104,10 @@ class C19(Check):
                    'descriptor 0 is in use (File treats descriptor 0 as "closed")',
                    'path texts ending in a separator: only Directory::create/unlink/exists',
                    'getRelativePath: same kind of from/to, simplifyPath(from) has no leading ".."',
-                   'Directory::create false => not-exists: path text without backslash; create_succeeds / unlink theorems: relative texts of proper names through real directories']
+                   'Directory::create false => not-exists: path text without backslash; create_succeeds / unlink / purge / fault theorems: relative texts of proper names through real directories',
+                   'fnmatch(pattern, name, 0) as modelled for patterns of literal bytes, * and ? (FsModel.glob, proved equal to the reference relation FsSpec.matches)',
+                   'a directory is not changed between Directory::open and the reads; at most one system call of an unlink / purge fails (EIO)',
+                   'getAbsolutePath: getcwd succeeds and the current directory is a real directory named by proper names (holds initially and after every successful Directory::change)']
 
     FS_SETUP = ('mkd', 'mkf', 'mkl', 'mkfbig', 'inject', 'fault')
 
